@@ -57,6 +57,13 @@ def run(res, args):
         at = [len(fr[0]) + len(text) + max(6, len(fr[1]) // 2), len(fr[0]) + len(text) + 2, len(fr[0]) + 20][k % 3]
         ins.append((s, "silence of 1.5 s " + ["inside a frame", "inside a leader", "inside text"][k % 3]))
         cases.append("filter %s %d %d 0 %s m1500@%d" % (gen.hx(s), k % 2, (k >> 1) % 2, rng.choice(["7", "4096", "1"]), at))
+    # a reader that once returns no bytes and no error (allowed by io.Reader; it is not end of input)
+    for k in range(3 if res.tier == "quick" else 12):
+        fr = [gen.rand_frame(rng, small=True) for _ in range(3)]
+        s = fr[0] + b"$GP,1*00\r\n" + fr[1] + fr[2]
+        at = [0, len(fr[0]) + 3, len(fr[0]) + 11 + len(fr[1]) // 2][k % 3]
+        ins.append((s, "reader returns (0, nil) once"))
+        cases.append("filter %s %d %d 0 %s z%d" % (gen.hx(s), k % 2, (k >> 1) % 2, rng.choice(["7", "4096", "64"]), at))
     scases = ["stream %d debug %s" % (framing.T0, gen.hx(s)) for s, _ in ins]
     simpl, smodel = framing.run_both(res, "stream", scases)
     obs, e = common.run_app_test(fbin, cases, "C10")
